@@ -38,7 +38,8 @@ def strategy(tier):
         names = [s['name'] for s in spec['states']]
         subset = draw(st.lists(st.sampled_from(names), min_size=1, max_size=len(names),
                                unique=True))
-        return {'kind': 'rename', 'spec': spec, 'ops': ops, 'rename': subset}
+        return {'kind': 'rename', 'spec': spec, 'ops': ops, 'rename': subset,
+                'prerun': draw(st.booleans())}
 
     @st.composite
     def copy_(draw):
@@ -91,10 +92,16 @@ def oracle_rename(case):
     from ..cli import sha
     spec = probes.instrument(case['spec'])
     tree = Tree(spec)
-    ref = run_sig(spec, to_statechart(spec), case['ops'])
     sc = to_statechart(spec)
+    if case.get('prerun'):
+        # the very Statechart object that is renamed afterwards has been executed before
+        ref = run_sig(spec, sc, case['ops'])
+    else:
+        ref = run_sig(spec, to_statechart(spec), case['ops'])
     ren = {n: n + 'x' for n in case['rename']}
     viol, labels = [], {'rename cases': 1}
+    if case.get('prerun'):
+        labels['rename after the statechart was executed'] = 1
     try:
         for n in case['rename']:
             sc.rename_state(n, ren[n])
